@@ -497,6 +497,65 @@ def r8_all_block(body):
         log.append('R8: %s.iter()%s.%s(|%s| {…}) -> loop (__a%d/__k%d/__r%d)' % (src, enum_ or '', which, pat, n, n, n))
     return s, log
 
+def r15_enum_map_fold(body):
+    """R15: `SRC.iter().enumerate().map(|(I, &V)| F).fold(INIT, |X, Y| G)`  ->  index loop (definition of
+    enumerate / map / fold over a slice): acc = INIT; for k in 0..len { I = k; V = SRC[k]; y = F; acc = G[X:=acc, Y:=y] }.
+    No invariant is generated: the contract supplies it (`loop N`).  Names: __faN (slice), __fkN (index), __faccN, __fyN."""
+    log = []
+    s = body
+    rx = re.compile(r'([A-Za-z_][\w\.]*(?:\[[^\[\]]*\])?)\.iter\(\)\.enumerate\(\)\.map\(\s*\|\s*\(\s*([A-Za-z_]\w*)\s*,\s*(&?)\s*([A-Za-z_]\w*)\s*\)\s*\|')
+    while True:
+        m = None
+        for mm in _code_find(s, rx):
+            m = mm
+            break
+        if not m:
+            break
+        src, iv, amp, xv = m.groups()
+        po = s.index('(', m.start() + len(src) + len('.iter().enumerate().map') - 1)
+        po = s.index('(', s.index('.map', m.start() + len(src)))
+        pc = match_delim(s, po)
+        f_body = s[m.end():pc].strip()
+        fm = re.match(r'\s*\.fold\(', s[pc + 1:])
+        if not fm:
+            raise RuleError('R15: enumerate().map(..) not followed by .fold(')
+        fo = pc + 1 + fm.end() - 1
+        fc = match_delim(s, fo)
+        inner = s[fo + 1:fc]
+        gm = re.match(r'^\s*([^,]+?)\s*,\s*\|\s*([A-Za-z_]\w*)\s*,\s*([A-Za-z_]\w*)\s*\|\s*(.*)$', inner, re.S)
+        if not gm:
+            raise RuleError('R15: cannot split fold arguments: %r' % inner)
+        init, xa, ya, g_body = gm.group(1), gm.group(2), gm.group(3), gm.group(4).strip()
+        _counter[0] += 1
+        n = _counter[0]
+        av, kv, accv, yv = '__fa%d' % n, '__fk%d' % n, '__facc%d' % n, '__fy%d' % n
+        srcx = ('&' + src) if '[' in src else src
+        new = ('{ let %s = %s; let mut %s: usize = 0; let mut %s = %s; while %s < %s.len() { let %s = %s; let %s = %s%s[%s]; '
+               'let %s = %s; %s = { let %s = %s; let %s = %s; %s }; %s += 1; } %s }'
+               % (av, srcx, kv, accv, init, kv, av, iv, kv, xv, '' if amp else '&', av, kv,
+                  yv, f_body, accv, xa, accv, ya, yv, g_body, kv, accv))
+        s = s[:m.start()] + new + s[fc + 1:]
+        log.append('R15: %s.iter().enumerate().map(|(%s, %s%s)| …).fold(%s, |%s, %s| …) -> loop (%s/%s/%s)'
+                   % (norm_ws(src), iv, amp, xv, norm_ws(init), xa, ya, av, kv, accv))
+    return s, log
+
+
+def r16_split_first(body):
+    """R16: `if let Some((&X, R)) = E.split_first() {`  ->  `if E.len() > 0 { let X = E[0]; let R = &E[1..];`
+    (definition of <[T]>::split_first for Copy elements; E must be a plain place expression; the else branch is untouched).
+    Verus does not support the reference pattern `&X`."""
+    log = []
+    s = body
+    rx = re.compile(r'if\s+let\s+Some\(\(\s*&\s*([A-Za-z_]\w*)\s*,\s*([A-Za-z_]\w*)\s*\)\)\s*=\s*([A-Za-z_][\w\.]*)\.split_first\(\)\s*\{')
+    res = []
+    for m in _code_find(s, rx):
+        x, r, e = m.groups()
+        res.append((m.start(), m.end(), 'if %s.len() > 0 { let %s = %s[0]; let %s = &%s[1..];' % (e, x, e, r, e)))
+        log.append('R16: if let Some((&%s, %s)) = %s.split_first()' % (x, r, e))
+    return _apply(s, res), log
+
+
+
 def r13_strip_inner_attrs(body):
     """R13 (part): drop statement/expression attributes that have no run-time meaning."""
     log = []
@@ -540,7 +599,7 @@ def apply_all(body, opts=None):
     log += l
     s, l = r1_debug_asserts(s, opts.get('may_fail', ()), opts.get('panic_call', 'verif_panic()'))
     log += l
-    for f in (r4_break_value, r5_copied_iter, r8_all_block, r7_any_all):
+    for f in (r4_break_value, r5_copied_iter, r15_enum_map_fold, r16_split_first, r8_all_block, r7_any_all):
         s, l = f(s)
         log += l
     s, l = r_for_loops(s, opts.get('loop_hints'))
@@ -583,6 +642,12 @@ SELFTEST = [
     (r7_any_all,
      '{ if unlikely(blockhash[start +\n 1..=end].iter().any(|x| *x != ch)) { return false; } true }',
      ['= &blockhash[start + 1..=end]; let mut __k', 'forall|__j: int| 0 <= __j < __k', '!(*(&__a']),
+    (lambda b: (_counter.__setitem__(0, 0), r15_enum_map_fold(b))[1],
+     '{ let h = bh[..N - 1].iter().enumerate().map(|(i, &value)| { (value as u64) << (6 * (5 - i) as u32) }).fold(0u64, |x, y| x | y); h }',
+     ['let __fa1 = &bh[..N - 1]; let mut __fk1: usize = 0; let mut __facc1 = 0u64; while __fk1 < __fa1.len() { let i = __fk1; let value = __fa1[__fk1]; let __fy1 = { (value as u64) << (6 * (5 - i) as u32) }; __facc1 = { let x = __facc1; let y = __fy1; x | y }; __fk1 += 1; } __facc1 }']),
+    (r16_split_first,
+     '{ if let Some((&value, rest)) = self.v.split_first() { self.v = rest; Some(value) } else { None } }',
+     ['{ if self.v.len() > 0 { let value = self.v[0]; let rest = &self.v[1..]; self.v = rest; Some(value) } else { None } }']),
     (r5_copied_iter,
      '{ let mut iter = bytes.iter().copied(); raw = iter.next(); }',
      ['let mut iter = bytes.iter();', 'raw = (match iter.next() { Some(__r) => Some(*__r), None => None });']),
